@@ -111,6 +111,104 @@ mk_init(0, False)
 mk_init(1, False)
 
 
+# ---------------------------------------------------------------- __init__: ANY number of records before the trailer
+NI = z3.Function('PIDX_COUNT', z3.IntSort(), z3.IntSort())        # number of index rows among records 0..j-1
+IDXROW = z3.Function('PIDX_ROW', z3.IntSort(), z3.IntSort())      # record number of the k-th index row
+POS = z3.Function('PIDX_POS', z3.IntSort(), z3.IntSort())         # position of index row q in the table index
+
+
+class InitLoop:
+    """`while True` in IpmParamReader.__init__: after j records (none of them the trailer) the table index is the association list
+    [(row[243:246], row[19:27]) for the index rows among records 0..j-1, in file order]"""
+    ghosts = ['j']
+    terminates_by_exception_only = False
+
+    def __init__(self, G):
+        self.G = G
+
+    def entry(self, ctx):
+        return {'j': z3.IntVal(0)}
+
+    def step(self, ctx, g):
+        return {'j': g['j'] + 1}
+
+    def side(self, ctx, g):
+        G, j = self.G, g['j']
+        q, k1, k2 = G['q'], G['k1'], G['k2']
+        row_ok = lambda k: z3.Implies(z3.And(k >= 0, k < NI(j)), z3.And(IDXROW(k) >= 0, IDXROW(k) < j, G['isidx'](IDXROW(k))))
+        return [j >= 0, j <= G['nrecs'], NI(j) >= 0, NI(j) <= j,
+                z3.Implies(z3.And(q >= 0, q < j), z3.Not(G['trailer'](q))),
+                z3.Implies(z3.And(q >= 0, q < j, G['isidx'](q)), z3.And(POS(q) >= 0, POS(q) < NI(j), IDXROW(POS(q)) == q)),
+                row_ok(k1), row_ok(k2),
+                z3.Implies(z3.And(k1 >= 0, k1 < k2, k2 < NI(j)), IDXROW(k1) < IDXROW(k2))]
+
+    def facts(self, ctx, g):
+        G, j = self.G, g['j']
+        return [NI(0) == 0, NI(j + 1) == NI(j) + z3.If(G['isidx'](j), 1, 0),
+                z3.Implies(G['isidx'](j), z3.And(IDXROW(NI(j)) == j, POS(j) == NI(j)))] + G['wf'](j)
+
+    def state(self, ctx, g):
+        G, j = self.G, g['j']
+        return {'self._g_idx': VInt(j), 'self.table_index.val': MI.AssocDict(G['entries'](NI(j))), 'trailer_record_found': FALSE}
+
+    def variant(self, ctx, g):
+        return self.G['nrecs'] - g['j']
+
+
+@unit('IpmParamReader.__init__/any-number-of-index-rows', props=['C18'], functions=[M + 'IpmParamReader.__init__'])
+def u_init_any(E):
+    enc, cd = codec(E)
+    nrecs = E.fresh_int('nrecs')
+    E.assume(nrecs >= 0)
+    install_vbs_contract(E, nrecs)
+    isidx = lambda j: text_is(E, cd, rec(E, j), 11, 'IP0000T1')
+    trailer = lambda j: text_is(E, cd, rec(E, j), 0, 'TRAILER RECORD IP0000T1')
+    # well-formed index rows carry the sub id at 243..245 (precondition of the property's `table index`)
+    wf = lambda j: [z3.Implies(isidx(j), RLEN(j) >= 246)]
+
+    def entry_of(r):
+        key = seq_items('str', [cd.DEC(RB(r, z3.IntVal(243 + k))) for k in range(3)])
+        val = seq_items('str', [cd.DEC(RB(r, z3.IntVal(19 + k))) for k in range(8)])
+        return VTuple([key, val])
+    entries = lambda n: VSeq('list', n, lambda k: entry_of(IDXROW(I(k))))
+    q, k1, k2 = E.fresh_int('q'), E.fresh_int('k1'), E.fresh_int('k2')
+    E.assume(NI(0) == 0)            # definition of the ghost counter
+    for t in wf(q):
+        E.assume(t)
+    E.loop_specs[(M + 'IpmParamReader.__init__', 0)] = InitLoop({'nrecs': nrecs, 'isidx': isidx, 'trailer': trailer, 'wf': wf, 'entries': entries,
+                                                                 'q': q, 'k1': k1, 'k2': k2})
+    f = E.new_file(seq_lit('bytes', b''), 0)
+    cfg = E.new_dict({'IP0040T1': E.new_dict({'card_program_id': E.new_dict({'start': VInt(19), 'end': VInt(22)})})})
+    tag = 'IpmParamReader.__init__[any file]'
+    E.native_input({'kind': 'param-init', 'n_index': 3, 'trailer': True})
+    try:
+        rd = E.instantiate(E.program.classes[M + 'IpmParamReader'], [f, lift('IP0040T1')], {'encoding': enc, 'param_config': cfg})
+    except PyRaise as pr:
+        if E.exc_is(pr.exc, UnicodeDecodeError):
+            return          # undecodable record: outside the property (text files)
+        E.prove(tag + '/refuses-only-with-the-library-error(%s)' % E.exc_name(pr.exc), z3.BoolVal(E.exc_is(pr.exc, M + 'MciIpmDataError')), 'P', 'xpost')
+        E.prove(tag + '/refused-only-when-no-record-is-the-index-trailer', z3.Implies(z3.And(q >= 0, q < nrecs), z3.Not(trailer(q))), 'P', 'xpost')
+        return
+    t = E.as_int(E.getf(rd, '_g_idx')) - 1
+    E.prove(tag + '/stops-at-a-trailer-record', z3.And(t >= 0, t < nrecs, trailer(t)), 'P')
+    E.prove(tag + '/it-is-the-first-trailer-record', z3.Implies(z3.And(q >= 0, q < t), z3.Not(trailer(q))), 'P')
+    dv = E.getf(E.getf(rd, 'table_index'), 'val')
+    ok = isinstance(dv, MI.AssocDict)
+    E.prove(tag + '/table-index-is-a-dict', z3.BoolVal(ok or isinstance(dv, dict)), 'P')
+    if not ok:
+        return
+    ents = dv.entries
+    # every entry is (sub id, table id) of an index row before the trailer; entries are in file order
+    E.prove(tag + '/entry-k-comes-from-an-index-row-before-the-trailer', z3.Implies(z3.And(k1 >= 0, k1 < ents.n), z3.And(IDXROW(k1) >= 0, IDXROW(k1) < t, isidx(IDXROW(k1)))), 'P')
+    E.assume(k1 >= 0)
+    E.assume(k1 < ents.n)
+    e1 = ents.at(k1)
+    E.prove_value_eq(tag + '/entry-k=(row[243:246],row[19:27])', e1, entry_of(IDXROW(k1)), 'P')
+    E.prove(tag + '/entries-in-file-order', z3.Implies(z3.And(k1 < k2, k2 < ents.n), IDXROW(k1) < IDXROW(k2)), 'P')
+    # and every index row before the trailer has its entry
+    E.prove(tag + '/every-index-row-before-the-trailer-is-entered', z3.Implies(z3.And(q >= 0, q < t, isidx(q)), z3.And(POS(q) >= 0, POS(q) < ents.n, IDXROW(POS(q)) == q)), 'P')
+
+
 @unit('IpmParamReader.__init__[table without configuration]', props=['C18'], functions=[M + 'IpmParamReader.__init__'])
 def u_init_nocfg(E):
     enc, cd = codec(E)
@@ -243,6 +341,88 @@ def mk_next(expanded, generated):
 for _x in (True, False):
     for _g in (False, True):
         mk_next(_x, _g)
+
+
+# ---------------------------------------------------------------- __next__ over ANY table index (compressed rows)
+KI = z3.Function('PIDX_KEYCHAR', z3.IntSort(), z3.IntSort(), z3.IntSort())
+VI = z3.Function('PIDX_VALCHAR', z3.IntSort(), z3.IntSort(), z3.IntSort())
+LOOK = z3.Function('PIDX_LOOKUP', z3.IntSort(), z3.IntSort())     # index entry that the dict lookup of row j's sub id yields, or -1
+
+
+@unit('IpmParamReader.__next__[compressed, any table index]', props=['C18'], functions=[M + 'IpmParamReader.__next__', M + 'IpmParamReader._get_param_field'])
+def u_next_any_index(E):
+    """the table index is an association list of ANY length (as IpmParamReader.__init__ leaves it, see the unit above):
+    a row belongs to table T iff the dict lookup of its sub id (last entry with that key) names T"""
+    enc, cd = codec(E)
+    nrecs, j0, n = E.fresh_int('nrecs'), E.fresh_int('j0'), E.fresh_int('n_index')
+    E.assume(z3.And(j0 >= 0, j0 <= nrecs, n >= 0))
+    install_vbs_contract(E, nrecs)
+    tid = 'IP0006T1'
+    s1, e1 = E.fresh_int('start'), E.fresh_int('end')
+    E.assume(s1 >= 19)
+    E.assume(e1 >= s1)
+    layout = {'colA': (s1, e1)}
+    cfg = E.new_dict({tid: E.new_dict({k: E.new_dict({'start': VInt(a), 'end': VInt(b)}) for k, (a, b) in layout.items()})})
+    key_of = lambda k: seq_items('str', [KI(I(k), z3.IntVal(c)) for c in range(3)])
+    val_of = lambda k: seq_items('str', [VI(I(k), z3.IntVal(c)) for c in range(8)])
+    entries = VSeq('list', n, lambda k: VTuple([key_of(k), val_of(k)]))
+    tindex = E.new_dict({})
+    E.setf(tindex, 'val', MI.AssocDict(entries))
+
+    def key_eq(k, j):
+        r = rec(E, j)
+        return z3.And(r.n >= 11, *[KI(k, z3.IntVal(c)) == cd.DEC(I(r.at(z3.IntVal(8 + c)))) for c in range(3)])
+
+    def look_axiom(j, inst):
+        L = LOOK(j)
+        return z3.Or(z3.And(L == -1, *[z3.Not(z3.And(q >= 0, q < n, key_eq(q, j))) for q in inst]),
+                     z3.And(L >= 0, L < n, key_eq(L, j), *[z3.Implies(z3.And(q > L, q < n), z3.Not(key_eq(q, j))) for q in inst]))
+
+    def belongs(j):
+        L = LOOK(j)
+        return z3.And(L >= 0, *[VI(L, z3.IntVal(c)) == ord(ch) for c, ch in enumerate(tid)])
+    q = E.fresh_int('q')
+
+    class Loop(NextLoop):
+        def facts(self, ctx, g):
+            j = g['j']
+            ctx.E.ghost['assoc_inst'] = [LOOK(j)]
+            ctx.E.ghost['assoc_on_hit'] = [lambda m, found, key, j=j: [look_axiom(j, [m])]]
+            return [look_axiom(j, [])]
+    f = E.new_file(seq_lit('bytes', b''), 0)
+    rd = E.new_obj(M + 'IpmParamReader', {'encoding': enc, 'param_config': cfg, 'table_id': lift(tid), 'table_index': tindex,
+                                          'expanded': FALSE, 'vbs_data': f, '_g_idx': VInt(j0)})
+    E.loop_specs[(M + 'IpmParamReader.__next__', 0)] = Loop({'j0': j0, 'nrecs': nrecs, 'q': q, 'match': belongs})
+    tag = 'IpmParamReader.__next__[compressed, any index]'
+    E.native_input({'kind': 'param-next', 'expanded': False})
+    try:
+        out = E.method(rd, '__next__')
+    except PyRaise as pr:
+        if E.exc_is(pr.exc, UnicodeDecodeError):
+            return
+        E.prove(tag + '/ends-only-by-StopIteration(%s)' % E.exc_name(pr.exc), z3.BoolVal(E.exc_is(pr.exc, StopIteration)), 'P', 'xpost')
+        E.prove(tag + '/no-row-of-the-requested-table-left-behind', z3.Implies(z3.And(q >= j0, q < nrecs), z3.Not(belongs(q))), 'P', 'xpost')
+        return
+    j = E.as_int(E.getf(rd, '_g_idx')) - 1
+    r = rec(E, j)
+    E.prove(tag + '/returned-row-belongs-to-the-requested-table', belongs(j), 'P')
+    E.prove(tag + '/rows-in-file-order-none-skipped', z3.Implies(z3.And(q >= j0, q < j), z3.Not(belongs(q))), 'P')
+    dv = E.getf(out, 'val')
+    if not isinstance(dv, dict):
+        E.prove(tag + '/returns-plain-dict', False, 'P')
+        return
+    E.prove(tag + '/columns', z3.BoolVal(set(dv) == {'table_id', 'effective_timestamp', 'active_inactive_code'} | set(layout)), 'P')
+    for name, (lo, hi) in [('effective_timestamp', (0, 7)), ('active_inactive_code', (7, 8)), ('colA', (s1 - 8, e1 - 8))]:
+        v = dv.get(name)
+        if not (isinstance(v, VSeq) and v.kind == 'str'):
+            E.prove('%s/%s-is-text' % (tag, name), False, 'P')
+            continue
+        lo_, hi_ = I(lo), I(hi)
+        a = z3.If(lo_ > r.n, r.n, lo_)
+        b = z3.If(hi_ > r.n, r.n, hi_)
+        E.prove('%s/%s-length' % (tag, name), v.n == z3.If(b - a < 0, 0, b - a), 'P')
+        k = E.fresh_int('k')
+        E.prove('%s/%s=configured-character-positions-of-the-row' % (tag, name), z3.Implies(z3.And(k >= 0, k < v.n), I(v.at(k)) == cd.DEC(I(r.at(a + k)))), 'P')
 
 
 @unit('compressed-vs-expanded/lemma', props=['C18'], functions=[M + 'IpmParamReader._get_param_field'])
